@@ -141,6 +141,8 @@ func tokenVal(t *types.TokenInfo) V {
 // ---------- running on the implementation ----------
 
 type HubRun struct {
+	deliver    bool   // blocks run on a cache-wrapped multistore (as deliverState), under a watchdog
+	blockWrite func()
 	env      *Env
 	chains   []string
 	nextNonce map[string]uint64
@@ -239,8 +241,23 @@ func (r *HubRun) exec(op *HubOp) (int64, string) {
 		return 0, ""
 	case 5:
 		env.Ctx = env.Ctx.WithBlockHeight(op.Height).WithBlockTime(time.UnixMilli(op.TimeMs).UTC())
+		if r.deliver {
+			cms := env.MS.CacheMultiStore()
+			env.Ctx = env.Ctx.WithMultiStore(cms)
+			r.blockWrite = cms.Write
+			return watchdog(func() error { mhub2.BeginBlocker(env.Ctx, env.K); return nil })
+		}
 		return outcome(func() error { mhub2.BeginBlocker(env.Ctx, env.K); return nil })
 	case 6:
+		if r.deliver {
+			code, m := watchdog(func() error { mhub2.EndBlocker(env.Ctx, env.K); return nil })
+			if code != 3 && r.blockWrite != nil {
+				r.blockWrite()
+				r.blockWrite = nil
+				env.Ctx = env.Ctx.WithMultiStore(env.MS)
+			}
+			return code, m
+		}
 		return outcome(func() error { mhub2.EndBlocker(env.Ctx, env.K); return nil })
 	case 9:
 		return env.Tx(nil, func(ctx sdk.Context) error {
@@ -352,3 +369,27 @@ func observeHub(env *Env, chains []string) V {
 
 var _ = banktypes.ModuleName
 var _ = strings.ToLower
+
+// watchdog runs block processing in its own goroutine: code 2 = panic, code 3 = did not return
+// within the limit (deadlock); the caller abandons the history after a 3.
+func watchdog(f func() error) (int64, string) {
+	type res struct {
+		code int64
+		msg  string
+	}
+	done := make(chan res, 1)
+	go func() {
+		c, m := outcome(f)
+		done <- res{c, m}
+	}()
+	limit := 8 * time.Second
+	select {
+	case r := <-done:
+		if r.code != 0 && os.Getenv("VERIF_DEBUG") != "" {
+			fmt.Fprintln(os.Stderr, "block processing:", r.msg)
+		}
+		return r.code, r.msg
+	case <-time.After(limit):
+		return 3, "block processing did not return"
+	}
+}
